@@ -33,8 +33,8 @@ def check_call(params):
     from discopy.rewriting import InterchangerError
     recipe, i, j, left = params["recipe"], params["i"], params["j"], params["left"]
     seed = params.get("seed", 0)
-    recipe = (recipe[0], tuple(recipe[1]), tuple((tuple(map(_tup, s)), o) for s, o in recipe[2]))
-    d = build.build(recipe)
+    recipe = _norm_recipe(recipe)
+    d = build_any(recipe)
     n = len(d)
     out = []
 
@@ -109,15 +109,24 @@ def check_call(params):
         bad("order", "box order %s, expected %s" % (got, want))
     if type(res) is not type(d) and not isinstance(d, type(res)):
         pass  # class of the result is not part of C05
-    w0, w1 = ref.wiring(ref.to_model(d, name_key)), ref.wiring(ref.to_model(res, name_key))
-    if w0 != w1:
-        bad("wiring", "wiring graph changed")
-    dim_of = lambda a: DIMS[a]  # noqa
-    m0 = ref.ref_eval(d, dim_of, _mat_of(seed))
-    m1 = ref.ref_eval(res, dim_of, _mat_of(seed))
-    if m0.shape != m1.shape or not np.array_equal(m0, m1):
-        bad("semantics", "matrix under the generic functor changed")
+    if len(set(names)) == len(names):   # occurrences are identifiable by name
+        w0, w1 = ref.wiring(ref.to_model(d, name_key)), ref.wiring(ref.to_model(res, name_key))
+        if w0 != w1:
+            bad("wiring", "wiring graph changed")
+    atoms = set(ref.ty_key(d.dom)) | {a for b in d.boxes for a in ref.ty_key(b.dom) + ref.ty_key(b.cod)}
+    if atoms <= set(DIMS):   # generic-matrix semantics for the monoidal universes
+        dim_of = lambda a: DIMS[a]  # noqa
+        m0 = ref.ref_eval(d, dim_of, _mat_of(seed))
+        m1 = ref.ref_eval(res, dim_of, _mat_of(seed))
+        if m0.shape != m1.shape or not np.array_equal(m0, m1):
+            bad("semantics", "matrix under the generic functor changed")
     return out
+
+
+def build_any(recipe):
+    if recipe[0] == "tensor":      # bubbles in tensor diagrams need the polynomial of the alphabet
+        build.kit("tensor").ns["poly"] = lambda v: v * v + 1
+    return build.build(recipe)
 
 
 def _tup(x):
@@ -125,8 +134,9 @@ def _tup(x):
 
 
 def _norm_recipe(recipe):
-    return (recipe[0], tuple(recipe[1]),
-            tuple((tuple(map(_tup, s)), o) for s, o in recipe[2]))
+    def t(x):
+        return tuple(t(y) for y in x) if isinstance(x, (list, tuple)) else x
+    return t(recipe)
 
 
 def check_class(params):
@@ -246,6 +256,24 @@ def _worker(shard):
     return part
 
 
+def _worker_calls(shard):
+    part = Part()
+    seed, items = shard
+    for recipe in items:
+        n = len(recipe[2])
+        part.count("states")
+        for i in range(-1, n + 1):
+            for j in range(-1, n + 1):
+                for left in (False, True):
+                    params = dict(recipe=recipe, i=i, j=j, left=left, seed=seed)
+                    res = CASES["call"](params)
+                    part.count("transitions")
+                    for sig, msg in res:
+                        part.violation(sig, msg, "call", params)
+        part.seen("nontrivial", repr(recipe))
+    return part
+
+
 def universes(ctx):
     """List of (label, iterator of recipes)."""
     sig_x = build.shape_signature(("x",), 2)
@@ -284,6 +312,21 @@ def run(ctx):
         ctx.note("universe_sizes", "%s=%d" % (label, len(items)))
         parts = pmap(_worker, [(ctx.seed, s) for s in build.shards(items, 64)])
         for p in parts:
+            ctx.merge(p)
+    # other diagram classes (boxes without a dagger, bubbles, typed wires): every call on every diagram
+    from mc import pools
+    bub = [("tbox", "a", (2,), (3,)), ("tbox", "c", (), (2,)), ("tbox", "d", (2, 3), ()),
+           ("e", "Box('p', Dim(2), Dim(2), [1, 2, 3, 4]).bubble(func=poly)"),
+           ("e", "Box('q', Dim(3), Dim(2), [1, 2, 3, 4, 5, 6]).bubble(func=poly)"), ("e", "Spider(1, 2, 2)")]
+    build.kit("tensor").ns["poly"] = lambda v: v * v + 1
+    extra = [("cartesian", pools.recipes("cartesian", 3 if not ctx.quick else 2, 3)),
+             ("biclosed", pools.recipes("biclosed", 2, 3)),
+             ("tensor+bubbles", list(build.expr_universe("tensor", bub, [(), (2,), (2, 3)], 3, 3))),
+             ("circuit", pools.recipes("circuit", 2, 3)[:: (4 if ctx.quick else 1)])]
+    for label, rs in extra:
+        rs = [r for r in rs if len(r[2]) >= 2]
+        ctx.note("universe_sizes", "%s=%d" % (label, len(rs)))
+        for p in pmap(_worker_calls, [(ctx.seed, sh) for sh in build.shards(rs, 32)]):
             ctx.merge(p)
     if ctx.counters.get("class_capped"):
         ctx.cap_hit("class BFS cap reached for %d seeds" % ctx.counters["class_capped"])
